@@ -23,7 +23,7 @@ echo "-- demo with change"
 PYTHONPATH=$WT timeout 300 /venv/bin/python /tmp/cm/$ID-demo.py > /tmp/cm/$ID-demo-mut.out 2>&1; rc_mut=$?
 echo "rc_mut=$rc_mut"
 echo "-- suite with change"
-timeout 3000 /venv/bin/python -m pytest -q -p no:cacheprovider --timeout=900 -n 10 -k "not spark and not hypothesis" > /tmp/cm/$ID-suite.log 2>&1
+timeout 3000 /venv/bin/python -m pytest -q -p no:cacheprovider --timeout=900 -n ${NPROC:-10} -k "not spark and not hypothesis" > /tmp/cm/$ID-suite.log 2>&1
 tail -1 /tmp/cm/$ID-suite.log
 python3 /verif/tools/suite_vs_baseline.py /tmp/cm/$ID-suite.log > /tmp/cm/$ID-cmp.txt; cat /tmp/cm/$ID-cmp.txt | head -3
 serial_ok=1
